@@ -1,31 +1,9 @@
 import Heph.Model.TransJava
+import Heph.Spec.JavaBalance
 /-! Bracket balance of texts: scanner, neutrality, and the string helpers of the Java
 translator model (`sp`, `join`, `lstrip`, `strip`, `collapseWs`, `addStringAt`, `rsplit1`,
 `lastWord`, `replaceDots`, `boxedOf`, `toString`) with respect to it. -/
 namespace Heph.TransJava
-
-/-- the characters whose nesting is stated: `( ) { } [ ]` -/
-def isBr (c : Char) : Bool := c == '(' || c == ')' || c == '{' || c == '}' || c == '[' || c == ']'
-
-/-- the closing character an opening one asks for -/
-def closerOf (c : Char) : Option Char :=
-  if c == '(' then some ')' else if c == '{' then some '}' else if c == '[' then some ']' else none
-
-def isCloser (c : Char) : Bool := c == ')' || c == '}' || c == ']'
-
-/-- bracket scanner: the stack holds the closers that are still expected (head = innermost);
-characters that are not brackets are skipped; a closer must be the expected one -/
-def scan : List Char → List Char → Option (List Char)
-  | st, [] => some st
-  | st, c :: cs =>
-    match closerOf c with
-    | some k => scan (k :: st) cs
-    | none =>
-      if isCloser c then
-        (match st with
-         | k :: st' => if k == c then scan st' cs else none
-         | [] => none)
-      else scan st cs
 
 /-- parentheses, braces and square brackets of the text are properly nested and all closed -/
 def Balanced (s : String) : Prop := scan [] s.toList = some []
